@@ -11,16 +11,16 @@ import (
 	"github.com/bluenviron/gohlslib/v2/pkg/playlist"
 )
 
-func fmp4PickLeadingTrack(init *fmp4.Init) int {
+func fmp4PickLeadingTrack(tracks []*fmp4.InitTrack) int {
 	// pick first video track
-	for _, track := range init.Tracks {
+	for _, track := range tracks {
 		if track.Codec.IsVideo() {
 			return track.ID
 		}
 	}
 
 	// otherwise, pick first track
-	return init.Tracks[0].ID
+	return tracks[0].ID
 }
 
 func findFirstPartTrackOfLeadingTrack(parts []*fmp4.Part, leadingTrackID int) *fmp4.PartTrack {
@@ -58,6 +58,7 @@ type clientStreamProcessorFMP4 struct {
 	client           clientStreamDownloaderClient
 
 	init               fmp4.Init
+	supportedTracks    []*fmp4.InitTrack
 	leadingTrackID     int
 	trackProcessors    map[int]*clientTrackProcessorFMP4
 	clientStreamTracks []*clientTrack
@@ -80,11 +81,22 @@ func (p *clientStreamProcessorFMP4) run(ctx context.Context) error {
 		return fmt.Errorf("rendition playlists with multiple tracks are not supported")
 	}
 
-	p.leadingTrackID = fmp4PickLeadingTrack(&p.init)
+	// tracks with unsupported codecs are not exposed
+	for _, track := range p.init.Tracks {
+		if codecs.FromFMP4(track.Codec) != nil {
+			p.supportedTracks = append(p.supportedTracks, track)
+		}
+	}
 
-	tracks := make([]*Track, len(p.init.Tracks))
+	if len(p.supportedTracks) == 0 {
+		return fmt.Errorf("no supported tracks found")
+	}
 
-	for i, track := range p.init.Tracks {
+	p.leadingTrackID = fmp4PickLeadingTrack(p.supportedTracks)
+
+	tracks := make([]*Track, len(p.supportedTracks))
+
+	for i, track := range p.supportedTracks {
 		tracks[i] = &Track{
 			Codec:     codecs.FromFMP4(track.Codec),
 			ClockRate: int(track.TimeScale),
@@ -266,7 +278,7 @@ func (p *clientStreamProcessorFMP4) initializeTrackProcessors(
 		}
 		p.rp.add(trackProc)
 
-		p.trackProcessors[p.init.Tracks[i].ID] = trackProc
+		p.trackProcessors[p.supportedTracks[i].ID] = trackProc
 	}
 
 	return nil
